@@ -363,4 +363,305 @@ theorem cut_sem {s : State} (inv : Inv s) {h : Nat} (off len : Nat) :
         · intro h' ne; rw [pm.2.2 h' ne]; exact dp.2.2.1 h' ne
 
 
+
+/-- effect of `mpt_buffer_insert` on a plain buffer -/
+def insPlain (x : Buf) (pos len : Nat) : Buf :=
+  { x with
+    data :=
+      (if pos > x.used then
+        Mem.write (if x.used - pos ≠ 0 then Mem.move x.data (pos + len) pos (x.used - pos) else x.data)
+          x.used (zeros (pos - x.used))
+       else (if x.used - pos ≠ 0 then Mem.move x.data (pos + len) pos (x.used - pos) else x.data)),
+    used := max x.used pos + len }
+
+theorem bufferInsert_plain {s : State} {b : Nat} {x : Buf} (hb : s.buf? b = some x) (hp : PlainT x.traits) (pos len : Nat) :
+    (∃ e, bufferInsert s b pos len = .fail s e) ∨
+    (max x.used pos + len = 0 ∧ bufferInsert s b pos len = .ok s 0) ∨
+    (max x.used pos + len ≤ x.size ∧ x.immutable = false ∧
+      (pos % esize x.traits = 0 ∧ len % esize x.traits = 0) ∧
+      bufferInsert s b pos len = .ok (s.setBuf b (insPlain x pos len)) pos) := by
+  unfold bufferInsert
+  rw [hb]
+  simp only
+  by_cases t0 : max x.used pos + len = 0
+  · rw [if_pos t0]; exact Or.inr (Or.inl ⟨t0, rfl⟩)
+  · rw [if_neg t0]
+    by_cases fit : max x.used pos + len > x.size
+    · rw [if_pos fit]; exact Or.inl ⟨_, rfl⟩
+    · rw [if_neg fit]
+      by_cases imm : x.immutable = true
+      · rw [if_pos imm]; exact Or.inl ⟨_, rfl⟩
+      · rw [if_neg imm]
+        have imm' : x.immutable = false := by simpa using imm
+        cases ht : x.traits with
+        | none =>
+          simp only
+          exact Or.inr (Or.inr ⟨by omega, imm', ⟨by simp [esize, Nat.mod_one], by simp [esize, Nat.mod_one]⟩, rfl⟩)
+        | some t =>
+          simp only
+          split
+          · exact Or.inl ⟨_, rfl⟩
+          · rename_i c4
+            have pt := hp t ht
+            simp only [not_or, Decidable.not_not] at c4
+            simp only [pt.1, Bool.false_eq_true, if_false]
+            exact Or.inr (Or.inr ⟨by omega, imm', ⟨by simpa [esize] using c4.2.2.1, by simpa [esize] using c4.2.2.2⟩, rfl⟩)
+
+theorem insPlain_poke_content (x : Buf) (pos : Nat) (bytes : List Byte) (hu : x.used ≤ x.size)
+    (fit : max x.used pos + bytes.length ≤ x.size) :
+    (Mem.write (insPlain x pos bytes.length).data pos bytes).take (insPlain x pos bytes.length).used
+      = Vec.insert x.content pos bytes ∧
+    (insPlain x pos bytes.length).data.length = x.data.length := by
+  simp only [Buf.size] at hu fit
+  unfold insPlain Vec.insert Vec.padTo Vec.zeros Buf.content
+  simp only
+  by_cases c : pos < x.used
+  · have c' : ¬ pos > x.used := by omega
+    have k : x.used - pos ≠ 0 := by omega
+    simp only [c', if_false, k, ne_eq, not_false_eq_true, if_true]
+    have ml := move_length x.data (pos + bytes.length) pos (x.used - pos) (by omega) (by omega)
+    refine ⟨?_, ml⟩
+    apply List.ext_getElem?
+    intro i
+    rw [List.getElem?_take, getElem?_write _ _ _ _ (by rw [ml]; omega),
+      getElem?_move _ _ _ _ _ (by omega) (by omega)]
+    simp only [List.getElem?_append, List.getElem?_take, List.getElem?_drop, List.length_take, List.length_append,
+      List.length_replicate, List.getElem?_replicate]
+    grind
+  · have k : x.used - pos = 0 := by omega
+    simp only [k, ne_eq, not_true_eq_false, if_false]
+    by_cases c' : pos > x.used
+    · simp only [c', if_true]
+      have wl := write_length x.data x.used (zeros (pos - x.used)) (by simp; omega)
+      refine ⟨?_, wl⟩
+      apply List.ext_getElem?
+      intro i
+      rw [List.getElem?_take, getElem?_write _ _ _ _ (by rw [wl]; omega),
+        getElem?_write _ _ _ _ (by simp; omega)]
+      simp only [getElem?_zeros, zeros_length]
+      simp only [List.getElem?_append, List.getElem?_take, List.getElem?_drop, List.length_take, List.length_append,
+        List.length_replicate, List.getElem?_replicate]
+      grind
+    · simp only [c', if_false]
+      refine ⟨?_, trivial⟩
+      apply List.ext_getElem?
+      intro i
+      rw [List.getElem?_take, getElem?_write _ _ _ _ (by omega)]
+      simp only [List.getElem?_append, List.getElem?_take, List.getElem?_drop, List.length_take, List.length_append,
+        List.length_replicate, List.getElem?_replicate]
+      grind
+
+
+theorem State.setBuf_setBuf (s : State) (b : Nat) (x y : Buf) : (s.setBuf b x).setBuf b y = s.setBuf b y := by
+  simp [State.setBuf, List.set_set]
+
+theorem poke_eq {s : State} {h nb : Nat} {y : Buf} (hh : s.handle h = some nb) (hy : s.buf? nb = some y)
+    (off : Nat) (bytes : List Byte) (fit : off + bytes.length ≤ y.size) :
+    poke s h off bytes = .ok (s.setBuf nb { y with data := Mem.write y.data off bytes }) () := by
+  unfold poke
+  rw [hh]; simp only; rw [hy]; simp only
+  rw [if_neg (by omega)]
+
+theorem write_nil (d : List Byte) (off : Nat) : Mem.write d off [] = d := by
+  simp [Mem.write]
+
+/-- `mpt_buffer_insert` followed by the caller's copy, on the private buffer obtained by `ensure` -/
+theorem insert_private_sem {s s1 : State} {h nb : Nat} {x : Buf} {n : Nat} (pos : Nat) (bytes : List Byte)
+    (hu : x.used ≤ x.size) (hal : x.used % esize x.traits = 0) (absx : s.abs h = x.content)
+    (dp : DetachPost s h x n s1 nb) (hn : max x.used pos + bytes.length ≤ n) :
+    Sem s h (fun v v' => v' = Vec.insert v pos bytes)
+      (match bufferInsert s1 nb pos bytes.length with
+       | .ok s2 p =>
+         (match poke s2 h p bytes with
+          | .ok s3 _ => .ok s3 p
+          | .fail s3 e => .fail s3 e
+          | .fault w => .fault w)
+       | .fail s2 e => .fail s2 e
+       | .fault w => .fault w) := by
+  obtain ⟨z, hz, zr, zi, zs, zt, zu, zc⟩ := dp.keeps hu (by omega)
+  have inv2 := dp.1
+  have hh2 := dp.2.2.2.1
+  have zused := inv2.used nb z hz
+  have zp := inv2.plain nb z hz
+  rcases bufferInsert_plain hz zp pos bytes.length with ⟨e, he⟩ | ⟨t0, he⟩ | ⟨fit, _, al, he⟩
+  · rw [he]; exact Sem.of_private_fail _ dp hu (by omega) absx _
+  · rw [he]
+    simp only
+    have b0 : bytes = [] := List.eq_nil_of_length_eq_zero (by omega)
+    have p0 : pos = 0 := by omega
+    have u0 : x.used = 0 := by omega
+    subst b0 p0
+    rw [poke_eq hh2 hz 0 [] (by simp)]
+    simp only [write_nil]
+    have pm := inv2.setBuf_private hh2 hz zr z zr zused zp (inv2.aligned nb z hz)
+    refine ⟨pm.1, by simpa using dp.2.1, ?_, ?_⟩
+    · rw [pm.2.1, zc, absx]
+      have : x.content = [] := by simp [Buf.content, u0]
+      simp [this, Vec.insert, Vec.padTo, Vec.zeros]
+    · intro h' ne; rw [pm.2.2 h' ne]; exact dp.2.2.1 h' ne
+  · rw [he]
+    simp only
+    have blt := State.buf?_lt hz
+    have hy : (s1.setBuf nb (insPlain z pos bytes.length)).buf? nb = some (insPlain z pos bytes.length) := by
+      rw [State.buf?_setBuf _ _ _ _ blt]; simp
+    have ipc := insPlain_poke_content z pos bytes zused (by rw [zu]; omega)
+    rw [poke_eq (by simpa using hh2) hy pos bytes (by simp only [Buf.size]; rw [ipc.2]; simp only [Buf.size] at zs; omega)]
+    simp only [State.setBuf_setBuf]
+    have pm := inv2.setBuf_private hh2 hz zr
+      { insPlain z pos bytes.length with data := Mem.write (insPlain z pos bytes.length).data pos bytes } zr
+      (by
+        simp only [Buf.size]
+        rw [write_length _ _ _ (by rw [ipc.2]; simp only [Buf.size] at zs; omega), ipc.2]
+        show max z.used pos + bytes.length ≤ z.data.length
+        simp only [Buf.size] at zs; omega)
+      zp
+      (by
+        show (max z.used pos + bytes.length) % esize z.traits = 0
+        have a1 : z.used % esize z.traits = 0 := by rw [zu, zt]; exact hal
+        have : max z.used pos % esize z.traits = 0 := by rw [Nat.max_def]; split; exact al.1; exact a1
+        rw [Nat.add_mod, this, al.2]; simp)
+    refine ⟨pm.1, by simpa using dp.2.1, ?_, ?_⟩
+    · rw [pm.2.1, absx, ← zc]
+      exact ipc.1
+    · intro h' ne; rw [pm.2.2 h' ne]; exact dp.2.2.1 h' ne
+
+
+/-- an empty handle gets a fresh buffer -/
+theorem attach_fresh {s : State} (inv : Inv s) {h : Nat} (hlt : h < s.hs.length) (hh : s.handle h = none)
+    (len : Nat) (t : Option Traits) (pt : PlainT t) :
+    DetachPost s h (State.fresh len 0 t) len ((s.newBuf len 0 t).setHandle h (some s.bufs.length)) s.bufs.length ∧
+    s.abs h = (State.fresh len 0 t).content := by
+  have hnb : s.buf? s.bufs.length = none := State.buf?_ge_length s _ (Nat.le_refl _)
+  have ret := Inv.retarget (s' := (s.newBuf len 0 t).setHandle h (some s.bufs.length)) inv
+    (z := State.fresh len 0 t) hlt hnb (by simp)
+    (by intro c; rw [State.buf?_setHandle, State.buf?_newBuf]; simp [hh])
+    rfl (by simp [State.fresh]) pt (by simp [State.fresh])
+  have hz : ((s.newBuf len 0 t).setHandle h (some s.bufs.length)).buf? s.bufs.length = some (State.fresh len 0 t) := by
+    rw [State.buf?_setHandle, State.buf?_newBuf]; simp
+  refine ⟨⟨ret.1, by simp, ret.2.2.2, ret.2.1, _, hz, rfl, ?_, ?_, rfl, len, Nat.le_refl _, ?_⟩, ?_⟩
+  · simp [Buf.immutable, State.fresh]
+  · simp only [State.fresh, Buf.size, List.length_replicate]; exact le_allocSize len
+  · simp [State.fresh, Buf.content]
+  · rw [State.abs_none hh]; simp [State.fresh, Buf.content]
+
+theorem fresh_used (len f : Nat) (t : Option Traits) : (State.fresh len f t).used = 0 := rfl
+theorem fresh_size (len f : Nat) (t : Option Traits) : (State.fresh len f t).size = allocSize len := by
+  simp [State.fresh, Buf.size]
+
+theorem insert_sem {s : State} (inv : Inv s) {h : Nat} (hlt : h < s.hs.length) (pos : Nat) (bytes : List Byte) :
+    Sem s h (fun v v' => v' = Vec.insert v pos bytes) (insertOp s h pos bytes) := by
+  unfold insertOp arrayInsert
+  cases hh : s.handle h with
+  | none =>
+    simp only
+    obtain ⟨dp, absx⟩ := attach_fresh inv hlt hh (bytes.length + pos) none PlainT.none
+    obtain ⟨inv1, len1, oth1, hh1, z, hz, _⟩ := dp
+    have hz' : ((s.newBuf (bytes.length + pos) 0).setHandle h (some s.bufs.length)).buf? s.bufs.length
+        = some (State.fresh (bytes.length + pos) 0 none) := by
+      rw [State.buf?_setHandle, State.buf?_newBuf]; simp
+    rw [hz']
+    simp only [setUsed]
+    generalize hs1 : (s.newBuf (bytes.length + pos) 0).setHandle h (some s.bufs.length) = s1 at *
+    have blt := State.buf?_lt hz'
+    generalize hd : (if pos ≠ 0 then Mem.write (State.fresh (bytes.length + pos) 0 none).data 0 (zeros pos)
+      else (State.fresh (bytes.length + pos) 0 none).data) = d
+    have asz := le_allocSize (bytes.length + pos)
+    have dl : d.length = allocSize (bytes.length + pos) := by
+      rw [← hd]; split
+      · rw [write_length _ _ _ (by simp [State.fresh]; omega)]; simp [State.fresh]
+      · simp [State.fresh]
+    have hy : (s1.setBuf s.bufs.length { State.fresh (bytes.length + pos) 0 none with data := d, used := bytes.length + pos }).buf? s.bufs.length
+        = some { State.fresh (bytes.length + pos) 0 none with data := d, used := bytes.length + pos } := by
+      rw [State.buf?_setBuf _ _ _ _ blt]; simp
+    rw [poke_eq (by simpa using hh1) hy pos bytes (by simp only [Buf.size]; omega)]
+    simp only [State.setBuf_setBuf]
+    have pm := inv1.setBuf_private hh1 hz' rfl
+      { State.fresh (bytes.length + pos) 0 none with data := Mem.write d pos bytes, used := bytes.length + pos } rfl
+      (by simp only [Buf.size]; rw [write_length _ _ _ (by omega)]; omega)
+      PlainT.none (by simp [State.fresh, esize, Nat.mod_one])
+    refine ⟨pm.1, by simpa using len1, ?_, ?_⟩
+    · rw [pm.2.1, State.abs_none hh]
+      simp only [Buf.content, Vec.insert, Vec.padTo, Vec.zeros]
+      apply List.ext_getElem?
+      intro i
+      rw [List.getElem?_take, getElem?_write _ _ _ _ (by omega), ← hd]
+      by_cases p0 : pos = 0
+      · simp only [p0, ne_eq, not_true_eq_false, if_false, State.fresh]
+        simp only [List.getElem?_append, List.getElem?_take, List.getElem?_drop, List.length_take, List.length_append,
+          List.length_replicate, List.getElem?_replicate]
+        grind
+      · simp only [p0, ne_eq, not_false_eq_true, if_true]
+        rw [getElem?_write _ _ _ _ (by simp [State.fresh]; omega)]
+        simp only [getElem?_zeros, zeros_length, State.fresh]
+        simp only [List.getElem?_append, List.getElem?_take, List.getElem?_drop, List.length_take, List.length_append,
+          List.length_replicate, List.getElem?_replicate]
+        grind
+    · intro h' ne; rw [pm.2.2 h' ne]; exact oth1 h' ne
+  | some b =>
+    simp only
+    obtain ⟨x, hb⟩ := inv.live h b hh
+    rw [hb]
+    simp only
+    have hu := inv.used b x hb
+    have hal := inv.aligned b x hb
+    have absx : s.abs h = x.content := State.abs_of hh hb
+    by_cases need : (max x.used pos + bytes.length ≤ x.size ∧ ¬ x.shared = true)
+    · -- no detach
+      have dn : decide (¬ (max x.used pos + bytes.length ≤ x.size ∧ ¬ x.shared = true)) = false := by simp [need]
+      rw [dn]
+      by_cases imm : x.immutable = true
+      · -- `mpt_buffer_insert` refuses an immutable buffer (or has nothing to do)
+        simp only [ensure, Bool.false_eq_true, if_false]
+        have hp := inv.plain b x hb
+        rcases bufferInsert_plain hb hp pos bytes.length with ⟨e, he⟩ | ⟨t0, he⟩ | ⟨_, ni, _⟩
+        · rw [he]; exact Sem.fail_same inv _ _ _
+        · rw [he]
+          simp only
+          have b0 : bytes = [] := List.eq_nil_of_length_eq_zero (by omega)
+          have p0 : pos = 0 := by omega
+          have u0 : x.used = 0 := by omega
+          subst b0 p0
+          rw [poke_eq hh hb 0 [] (by simp)]
+          simp only [write_nil]
+          have : s.setBuf b x = s := by
+            have := State.handle_eq_some.mp hh
+            simp only [State.setBuf]
+            have e : s.bufs.set b (some x) = s.bufs := by
+              apply List.ext_getElem?
+              intro i
+              rw [List.getElem?_set]
+              split
+              · rename_i eq; subst eq
+                have blt := State.buf?_lt hb
+                simp only [blt, if_true]
+                unfold State.buf? at hb
+                split at hb
+                · rename_i hx; cases hb; exact hx.symm
+                · cases hb
+              · rfl
+            rw [e]
+          rw [this]
+          refine ⟨inv, rfl, ?_, fun _ _ => rfl⟩
+          rw [absx]
+          have : x.content = [] := by simp [Buf.content, u0]
+          simp [this, Vec.insert, Vec.padTo, Vec.zeros]
+        · rw [imm] at ni; cases ni
+      · have es := ensure_sem inv hh hb false (max x.used pos + bytes.length)
+          (by intro _; simp only [Buf.shared, decide_eq_true_eq] at need; exact ⟨by omega, by simpa using imm, need.1⟩)
+        generalize ensure s h b false _ = r at es
+        cases r with
+        | fault w => exact es
+        | fail s1 e => exact ⟨es.1, by rw [es.2.1], es.2.2⟩
+        | ok s1 nb => exact insert_private_sem pos bytes hu hal absx es (Nat.le_refl _)
+    · have dn : decide (¬ (max x.used pos + bytes.length ≤ x.size ∧ ¬ x.shared = true)) = true := by
+        simp only [decide_eq_true_eq]; exact need
+      rw [dn]
+      have es := ensure_sem inv hh hb true (max x.used pos + bytes.length) (by intro e; cases e)
+      generalize ensure s h b true _ = r at es
+      cases r with
+      | fault w => exact es
+      | fail s1 e => exact ⟨es.1, by rw [es.2.1], es.2.2⟩
+      | ok s1 nb => exact insert_private_sem pos bytes hu hal absx es (Nat.le_refl _)
+
+
 end Mpt.Heap
